@@ -83,7 +83,7 @@ func (e *Exec) intrinsic(th *Thread, fn *ssa.Function, args []Value) (Value, boo
 		return e.hashTreeRoot(fn, args[0]), true
 	}
 	// vouch metrics helpers: package-level functions named monitor*
-	if strings.HasPrefix(pp, e.P.modPath) && fn.Signature.Recv() == nil && strings.HasPrefix(fn.Name(), "monitor") {
+	if strings.HasPrefix(pp, e.P.modPath) && fn.Signature.Recv() == nil && (strings.HasPrefix(fn.Name(), "monitor") || strings.HasPrefix(fn.Name(), "Monitor")) {
 		e.stubs["noop:monitor*"]++
 		return e.noopResult(fn, args), true
 	}
